@@ -100,6 +100,12 @@ def run(tier):
                                       ("global L*\nglobal R+\nglobal S\n", {}), ("global A\nglobal B = \"d\"\nglobal C\nglobal D\n", {"A": A.vstr("a")})]):
         for mode in ("strict", "lazy"):
             sessions.append({"id": "c12g-%d-%s" % (i, mode), "text": decl + "(module) @_m { node n }\n", "mode": mode, "srcs": [2, 5], "globals": glob, "dbg": False})
+    # a function that fails on its argument (an invalid regular expression supplied as a global), before and after runs in which
+    # the same function succeeds: every repetition fails the same way
+    rtext = "global PAT\n(module) @_m {\n  node n\n  attr (n) r = (replace \"abcabc\" PAT \"x\")\n}\n"
+    for i, pat in enumerate(["b", "(", "c", "[a", "(", "a+"]):
+        for mode in ("strict", "lazy"):
+            sessions.append({"id": "c12r-%d-%s" % (i, mode), "text": rtext, "mode": mode, "srcs": [2, 2, 5], "globals": {"PAT": A.vstr(pat)}, "dbg": False})
     # files that differ only in names, executed one after the other in the same thread with debug attributes
     for i, nm in enumerate(["n", "k", "other", "n"]):
         sessions.append({"id": "c12t-%d" % i, "text": "(identifier) @_id {\n  node %s\n  attr (%s) v = 1\n}\n" % (nm, nm), "mode": "strict" if i % 2 else "lazy",
